@@ -521,6 +521,162 @@ fn check_call(
 }
 
 // ------------------------------------------------------------------------------------------------
+// coverage-guided stage
+// ------------------------------------------------------------------------------------------------
+
+/// Entry point of the libFuzzer target `c02_def_and_call` (harness/vfuzz). Line 1 is a definition `\def\a<parameter
+/// text>{<body>}`, line 2 a call line starting with `\a`. Both must be inside the model's domain (text that the model
+/// lexer turns into tokens which render back to the same text; no active characters; a parameter text `parse_def`
+/// accepts; a call on which the two formulations of TeX's argument binding agree; only `\x`/`\y` delivered to the main
+/// loop; balanced result) - everything else is skipped. Then the real VM defines the macro and runs the call, and the
+/// bound arguments, the expansion, the following macro expansions, the characters delivered and the group depth must be
+/// the model's (`predict` + `exec`, the oracle of all generated phases).
+pub fn fuzz_one(data: &[u8], obs: &mut Obs) {
+    let Ok(text) = std::str::from_utf8(data) else {
+        return;
+    };
+    let mut it = text.split('\n');
+    let (Some(def_line), Some(call_line)) = (it.next(), it.next()) else {
+        return;
+    };
+    let in_domain = |src: &str| -> Option<Vec<Tok>> {
+        let t = lex_line(src);
+        if to_source(&t).as_deref() != Some(src) || t.iter().any(|x| matches!(x, Tok::Active(_))) {
+            return None;
+        }
+        Some(t)
+    };
+    let (Some(dt), Some(ct)) = (in_domain(def_line), in_domain(call_line)) else {
+        obs.skip("fuzz:text-outside-the-model-lexer");
+        return;
+    };
+    let name = cs("a");
+    if dt.len() < 4 || dt[0] != cs("def") || dt[1] != name || ct.first() != Some(&name) {
+        obs.skip("fuzz:not-a-definition-and-call-of-a");
+        return;
+    }
+    let Ok((def, used)) = parse_def(&dt[2..]) else {
+        obs.skip("fuzz:parameter-text-rejected-by-model");
+        return;
+    };
+    if 2 + used != dt.len() || dt[2..].contains(&name) || ct[1..].contains(&name) {
+        obs.skip("fuzz:definition-ends-early-or-recursive");
+        return;
+    }
+    let stream = &ct[1..];
+    let (decl, tex) = (declarative_call_spans(&def, stream), macro_call(&def, stream, TrimRule::Tex));
+    match (&decl, &tex) {
+        (Ok((d, _)), Ok(c)) if d == c => {}
+        (Err(_), Err(_)) => {
+            obs.skip("fuzz:call-not-matching");
+            return;
+        }
+        _ => {
+            obs.inconclusive(format!("two formulations of argument binding disagree on {def_line} / {call_line}"));
+            return;
+        }
+    }
+    let Some((call, want)) = predict(&name, &def, stream, TrimRule::Tex) else {
+        return;
+    };
+    let delivered_ok = call
+        .expansion
+        .iter()
+        .chain(stream[call.consumed..].iter())
+        .all(|t| !matches!(t, Tok::Cs(n) if n != "x" && n != "y"));
+    if !delivered_ok || want.err.is_some() || want.depth != 0 {
+        obs.skip("fuzz:delivers-undefined-control-sequences-or-unbalanced");
+        return;
+    }
+    let Some(mut vm) = fresh_vm(def_line, obs) else {
+        return;
+    };
+    let src = format!("{call_line}%");
+    let res = catch(|| {
+        let o = vstate::run(&mut vm, "call.tex", &src);
+        let out = vstate::take_out(&mut vm);
+        let ev = vstate::take_events(&mut vm);
+        let depth = vm.verif_snapshot().commands_groups as i64;
+        (o, out, ev, depth)
+    });
+    let (o, out, ev, depth) = match res {
+        Ok(x) => x,
+        Err(p) => {
+            obs.repo_panic(&p, json!({"def": def_line, "call": call_line}));
+            return;
+        }
+    };
+    let got = Run {
+        out,
+        events: observed_events(ev),
+        err: match &o {
+            Outcome::Ok => None,
+            Outcome::Err { title, .. } => Some(title.clone()),
+        },
+        depth,
+    };
+    obs.count("calls:fuzz");
+    if got == want {
+        return;
+    }
+    let detail = json!({
+        "def": def_line, "call": call_line,
+        "observed": {"events": got.events, "out": got.out, "error": got.err, "group_depth": got.depth},
+        "tex": {"events": want.events, "out": want.out, "error": want.err, "group_depth": want.depth},
+    });
+    if let Some((_, dev)) = predict(&name, &def, stream, TrimRule::FirstLastOfDelimited) {
+        if dev != want && got == dev {
+            obs.known(FINDING_TRIM, detail);
+            return;
+        }
+    }
+    let what = if got.events.first() != want.events.first() {
+        match (got.events.first(), want.events.first()) {
+            (Some(g), Some(w)) if g.1 != w.1 => "bound-arguments-differ",
+            (Some(_), Some(_)) => "expansion-differs",
+            (None, _) => "macro-hook-not-called",
+            _ => "events-differ",
+        }
+    } else if got.events != want.events {
+        "tokens-after-call-changed(events)"
+    } else if got.err != want.err {
+        "unexpected-error"
+    } else if got.out != want.out {
+        "character-stream-differs"
+    } else {
+        "group-depth-differs"
+    };
+    obs.violation(format!("C02:{what}"), detail);
+}
+
+/// Seed corpus (definitions and calls of the random phase, renamed to `\a`) and dictionary for the libFuzzer target.
+pub fn fuzz_seeds() -> vcore::fuzzglue::Seeds {
+    let mut inputs = vec![];
+    let seeds: &[(&str, &str)] = &[
+        ("\\def\\a#1{[#1]}", "\\a x|"),
+        ("\\def\\a#1#2{(#1)(#2)}", "\\a {pq} r|"),
+        ("\\def\\a#1.{<#1>}", "\\a ab{c.d}e.|"),
+        ("\\def\\a#1ab{[#1]}", "\\a a{x}b ab!"),
+        ("\\def\\a#1\\q#2\\s{#2#1}", "\\a u{v}\\q{w}\\s|"),
+        ("\\def\\a p#1#{(#1)}", "\\a pq{h}|"),
+        ("\\def\\a#1#2 {(#1)(#2)}", "\\a x y !"),
+        ("\\def\\a#1aaabc{[#1]}", "\\a aaabaabcZaaabc!"),
+        ("\\def\\a#1#2#3#4#5#6#7#8#9{#9#1}", "\\a 123456789|"),
+        ("\\def\\a#1.{#1\\x}", "\\a {{a}{b}}.\\y|"),
+    ];
+    for (d, c) in seeds {
+        inputs.push(format!("{d}\n{c}").into_bytes());
+    }
+    let dictionary = [
+        "\\def\\a", "\\a", "#1", "#2", "#3", "#{", "{", "}", "\\x", "\\y", "\\q", "\\s", " ", ".", "ab", "aaabc", "{}", "{{", "}}", "\n", "|", "##",
+    ]
+    .iter()
+    .map(|s| s.to_string())
+    .collect();
+    vcore::fuzzglue::Seeds { inputs, dictionary }
+}
+
+// ------------------------------------------------------------------------------------------------
 // enumerated workload
 // ------------------------------------------------------------------------------------------------
 
